@@ -27,7 +27,7 @@ for p in props:
     rows.append(f"| {pid} | {n}" + (": " + ", ".join(f"`{x}`" for x in partial) if partial else "") + f" | {'; '.join(opens) or '—'} | {' '.join(fixed) or '—'} |")
 state = "\n".join(rows)
 
-srows = ["| seeded change | what it breaks (first line of the seeder's note) | result of our checks |", "|---|---|---|"]
+srows = ["| seeded change | what it breaks (first line of the seeder's note) | our checks when the change was first tried | our checks on the final tree |", "|---|---|---|---|"]
 for d in sorted(glob.glob(os.path.join(ROOT, "seeded", "*", "meta.json"))):
     m = json.load(open(d))
     name = os.path.basename(os.path.dirname(d))
@@ -49,7 +49,8 @@ for d in sorted(glob.glob(os.path.join(ROOT, "seeded", "*", "meta.json"))):
             short.append(f"{cid}: ?")
     if m.get("after_strengthening"):
         short.append("after strengthening: " + m["after_strengthening"])
-    srows.append(f"| {name} | {first} | {'; '.join(short)} |")
+    final = m.get("final_tree", "not re-run").replace("|", "/")[:260]
+    srows.append(f"| {name} | {first} | {'; '.join(short)} | {final} |")
 seeded = "\n".join(srows)
 
 path = os.path.join(ROOT, "DESIGN.md")
